@@ -101,8 +101,13 @@ def generate(seed, mode):
         threads.append({'kind': 'mutator', 'ops': [{'m': o.choice(['reg', 'reg', 'unreg', 'sub', 'unsub', 'regbase', 'rbases', 'irebase', 'cdecl']),
                                                     'req': [o.randrange(3) for _ in range(o.choice([1, 1, 2]))], 'n': o.randrange(2),
                                                     'v': o.randrange(4), 'p': o.choice([0, 1, 1])} for _ in range(o.randint(1, 5))]})
+    for t in threads:
+        if t['kind'] == 'mutator':
+            for j, m in enumerate(t['ops']):
+                if h64(seed, 'gc-mutation', j) % 8 == 0:
+                    m['m'] = 'gc'          # a collection in the mutator thread: weak reference callbacks fire while lookups are in flight
     return {'machine': MACHINE, 'seed': seed, 'part': 'threads',
-            'world': {'flav': flav, 'keys': keys, 'pre': pre, 'lookup_only': lookup_only, 'late_base_change': lookup_only or w.random() < 0.3,
+            'world': {'flav': flav, 'opcodes': h64(seed, 'opcode-granularity') % 4 == 0, 'keys': keys, 'pre': pre, 'lookup_only': lookup_only, 'late_base_change': lookup_only or w.random() < 0.3,
                       'p_switch': w.choice([0.05, 0.15, 0.4]), 'sched_seed': w.getrandbits(30), 'warm': w.random() < 0.5},
             'ops': threads}
 
@@ -607,8 +612,9 @@ def execute_reenter(program, ctx, mode):
 class Scheduler:
     """Real threads, one runnable at a time.  Line events inside traced files are the pre-emption points."""
 
-    def __init__(self, rng, p_switch, trace_dirs, step_cap=4000):
+    def __init__(self, rng, p_switch, trace_dirs, step_cap=4000, opcodes=False):
         self.rng = rng
+        self.opcodes = opcodes            # pre-empt between bytecodes instead of between lines (splits `x += 1`, `a[k] = f()` ...)
         self.p = p_switch
         self.dirs = trace_dirs
         self.threads = []
@@ -652,7 +658,9 @@ class Scheduler:
         return None
 
     def _local_trace(self, frame, event, arg):
-        if event == 'line':
+        if self.opcodes and not frame.f_trace_opcodes:
+            frame.f_trace_opcodes = True
+        if event == ('opcode' if self.opcodes else 'line'):
             self.steps += 1
             if self.steps < self.cap and self.rng.random() < self.p:
                 self.last_site = (frame.f_code.co_name, frame.f_lineno)
@@ -794,6 +802,10 @@ def execute_threads(program, ctx, mode):
             Bx.register(req, P, nm, v)
         elif k == 'rbases':
             Sx.__bases__ = () if Sx.__bases__ else (Bx,)
+        elif k == 'gc':
+            if real:
+                gc.collect()
+                ctx.fault('gc-in-mutator-thread')
         elif k == 'irebase' and real:
             R1.__bases__ = (Interface,) if R1.__bases__ == (R0,) else (R0,)
         elif k == 'cdecl' and real:
@@ -891,7 +903,11 @@ def execute_threads(program, ctx, mode):
                 mut_records.append((inv, stamp(), m, exc))
         return run
     zdir = os.path.dirname(os.path.abspath(zope.interface.__file__))
-    sched = Scheduler(random.Random(W['sched_seed']), W['p_switch'], [zdir])
+    opcodes = bool(W.get('opcodes'))
+    sched = Scheduler(random.Random(W['sched_seed']), W['p_switch'] / (4.0 if opcodes else 1.0), [zdir],
+                      step_cap=16000 if opcodes else 4000, opcodes=opcodes)
+    if opcodes:
+        ctx.probe('opcode-granularity-run')
     simlocks.sched = sched
     kinds = []
     for t in program['ops']:
